@@ -42,6 +42,7 @@ func main() {
 			os.Exit(2)
 		}
 		checks.Warm(c)
+		core.FinishWarm()
 	case "check":
 		if len(os.Args) < 3 {
 			usage()
